@@ -4,11 +4,15 @@ patch=$1; id=$2; tier=${3:-quick}
 cd /repo || exit 2
 if ! git diff --quiet; then echo "repo working tree not clean"; exit 2; fi
 if ! git apply --check "$patch" 2>/dev/null; then
-  if git apply --3way --check "$patch" 2>/dev/null; then mode=--3way; else echo "PATCH DOES NOT APPLY"; exit 3; fi
+  if ! git apply --3way "$patch" >/dev/null 2>&1 || git diff --name-only --diff-filter=U | grep -q .; then
+    git reset -q --hard HEAD; echo "PATCH DOES NOT APPLY (needs manual rebase)"; exit 3
+  fi
+  git reset -q   # keep the merged change unstaged
+else
+  git apply "$patch" || exit 3
 fi
-git apply $mode "$patch" || exit 3
 cd /verif && timeout 3000 ./check $id --tier $tier > /tmp/try_seed_$id.log 2>&1; rc=$?
-cd /repo && git checkout -q -- . && git reset -q
+cd /repo && git reset -q --hard HEAD
 echo "check $id tier=$tier exit=$rc"; grep -E "^VIOLATION|^C[0-9]+ tier|HARNESS" /tmp/try_seed_$id.log | cut -c1-260 | head -8
 # restore the evidence file of the unchanged tree
 cd /verif && git checkout -q -- evidence/$id.json 2>/dev/null
